@@ -241,7 +241,9 @@ def text(summary):
 
 
 def compare(ctx, rule, construct, where, what, found_paths, refs, names=None, hook=None, raises=True, fact=None, why="",
-            track=(), rewrite=None):
+            track=(), rewrite=None, undecided=None):
+    """undecided: a reason why a difference between the summaries cannot be called a violation (e.g. the function contains
+    nested function definitions, whose bodies are outside the summary)"""
     canon = Canon(atom_hook=hook, rewrite=rewrite)
     need(found_paths, f"{what}: no path")
     found = summarise(found_paths, canon, what, raises=raises, track=track)
@@ -255,6 +257,20 @@ def compare(ctx, rule, construct, where, what, found_paths, refs, names=None, ho
     for w in wants:
         ref_voc |= vocabulary(w)
     extra = vocabulary(found) - ref_voc - {"call:" + m for m in CONTAINER_METHODS}
+    # nested function definitions are compared as text: a difference there (a closure restructured, merged or renamed) is
+    # not a decided difference
+    def _has_nested_def(t):
+        if isinstance(t, (set, frozenset, list)):
+            return any(_has_nested_def(x) for x in t)
+        if isinstance(t, tuple):
+            if len(t) >= 2 and t[0] == "stmt" and isinstance(t[1], str) and t[1].lstrip().startswith(("def ", "async def ")):
+                return True
+            return any(_has_nested_def(x) for x in t)
+        return False
+    if _has_nested_def(found) or any(_has_nested_def(w) for w in wants):
+        extra = set(extra) | {"nested function definitions"}
+    if undecided:
+        extra = set(extra) | {undecided}
     if not (ref_voc & {"tt", "mask", "shl", "shr", "bitexpr", "mod", "floordiv", "pow"}):
         # a reference without bit-level or division constructs: integer polynomials are compared exactly by the canonical form
         extra -= {"poly@value", "poly@width"}
